@@ -137,7 +137,13 @@ func TestC04(t *testing.T) {
 					for _, k := range execStarts(full) {
 						if k == "ms" && !timedOut {
 							st.Record(c, true, c.Labels)
-							return "a step whose stop condition fired before it could start was started anyway"
+							trace := ""
+							for _, e := range full.Log {
+								if e.Phase == "run" && (e.Key == "ms" || e.Key == "mx" || e.Key == "my" || e.Key == "mz" || e.Key == "vp://ms" || e.Kind == "shutdown-begin") {
+									trace += fmt.Sprintf(" %d:%s(%s)@%dus", e.Seq, e.Kind, e.Key, e.TUs)
+								}
+							}
+							return "a step whose stop condition fired before it could start was started anyway; events:" + trace
 						}
 					}
 				}
